@@ -67,7 +67,7 @@ _with("w_orient", "orientation", "(1.2, 0, 0)", THOROUGH)
 _with("w_ondir", "onDirection", "(0, 0, 1)", THOROUGH)
 _with("w_base", "baseOffset", "(0, 0, -0.25)", THOROUGH)
 _with("w_shape", "shape", "shp", THOROUGH)
-USER = ("A", "B", "C", "P", "Q", "H")
+USER = ("A", "B", "C", "P", "Q", "H", "F")
 _with("w_a", "a", "21", QUICK, classes=USER)
 _with("w_b", "b", "22", QUICK, classes=USER)
 _with("w_c", "c", "23", THOROUGH, classes=USER)
@@ -85,7 +85,7 @@ _add("in_r0", "position", "in r0", "In(r0)", M.T_IN, QUICK)
 _add("in_r1", "position", "in r1", "In(r1)", M.T_IN, CORE, orient=True)
 _add("cin_r0", "position", "contained in r0", "ContainedIn(r0)", M.T_CONTAINED, QUICK)
 _add("cin_r1", "position", "contained in r1", "ContainedIn(r1)", M.T_CONTAINED, THOROUGH, orient=True)
-_add("on_m0", "position", "on m0", "On(m0)", M.T_ON, QUICK)
+_add("on_m0", "position", "on m0", "On(m0)", M.T_ON, CORE)
 _add("on_m1", "position", "on m1", "On(m1)", M.T_ON, CORE, orient=True)
 # polygonal regions cannot project ("does not yet support projection using on"): fine as a
 # specifying `on`, an argument-level refusal as a modifying one
@@ -215,6 +215,8 @@ CLASSES: List[ClassDef] = [
     ClassDef("Q", "OrientedPoint", (("a", (), "2"), ("b", (), "self.a * 2"), ("parentOrientation", (), "(self.a / 10, 0, 0)"))),
     # porting.rst: in 2D mode a default for `heading` is a default for `parentOrientation`
     ClassDef("H", "Object", (("a", (), "3"), ("heading", (), "self.a / 10")), modes=(True,)),
+    # a derived (final) property that built-in specifiers other than `with` specify
+    ClassDef("F", "Object", (("a", (), "4"), ("parentOrientation", ("final",), "(self.a / 40, 0, 0)"))),
 ]
 CLASSDEFS = {c.name: c for c in CLASSES}
 BUILTIN = ("Object", "OrientedPoint", "Point")
@@ -304,15 +306,18 @@ def plan(tier: str):
                     sizes.append((3, CORE))
             else:
                 sizes = [(0, QUICK), (1, THOROUGH), (2, THOROUGH)]
-                if cls in ("Object", "B"):
+                if cls == "Object":
                     sizes.append((3, THOROUGH))
+                elif cls in ("B", "Point", "C"):
+                    sizes.append((3, QUICK))
                 else:
-                    sizes.append((3, QUICK if cls in ("Point", "C") else CORE))
+                    sizes.append((3, CORE))
             for size, level in sizes:
                 for ms in multisets(instances_for(cls, mode2D, level), size):
                     out.append((cls, mode2D, ms))
             if tier == "thorough" and cls in ("Object", "B"):
-                keys4 = instances_for(cls, mode2D, CORE) + [k for k in ("w_yaw", "w_pos", "w_ct", "in_r0", "on_m0", "fdtoward_v") if mode2D in INSTS[k].modes]
+                # size 4 restricted to the position / orientation / `with` core
+                keys4 = instances_for(cls, mode2D, CORE) + [k for k in ("w_yaw", "in_r0", "on_m0") if mode2D in INSTS[k].modes]
                 for ms in multisets(sorted(set(keys4), key=ORDER.get), 4):
                     out.append((cls, mode2D, ms))
     return out
